@@ -4,4 +4,4 @@ Extraction Language OCaml.
 Extraction "../build/c10/model.ml"
   N.of_nat N.to_nat empty_graph register register_all plug sock_node node_ids get_node get_alias_source get_args
   list_imports get_pkg find_pkg_slot incoming outgoing alist_get
-  compat find_target plug_matches offer suppliers spec_plug idle tracks_distinct_b case_data.
+  compat find_target plug_matches plug_pairs offer suppliers spec_plug idle tracks_distinct_b case_data.
